@@ -11,7 +11,7 @@
    /repo); text_join then folds it into text (C02_text_join_no_special).  The context statements
    are decided on the implementation each run.  Only statements and [exact]. *)
 From MD Require Import Base.Py Base.Str Base.Opt Model.Token Model.Utils Model.StateBlock Model.Core Model.Inline Model.Pipeline
-     Lemmas.InlineLemmas Lemmas.InlineEsc.
+     Model.Block Lemmas.InlineLemmas Lemmas.InlineEsc Lemmas.ParaLine.
 From MD Require Import Gen.Tables.
 
 Theorem C09_every_punct_escapable : forallb (fun c => mem_z c escaped_table) md_ascii_punct = true.
@@ -52,3 +52,19 @@ Theorem C09_render_inline_escaped :
       render_inline_md cfg reformat casefold linktext (src_of segs) env = Ok (escape_html (text_of segs), env).
 Proof. exact render_inline_esc. Qed.
 Print Assumptions C09_render_inline_escaped.
+
+(* the paragraph context: render(esc(t) LF) = <p> escapeHtml(t) </p> LF *)
+Theorem C09_render_paragraph_escaped :
+  forall cfg reformat casefold linktext segs, wf segs -> line_ok (src_of segs) ->
+    mem_z 13 (src_of segs) = false -> mem_z 0 (src_of segs) = false ->
+  forall bpre bpost, c_rules (p_block cfg) = bpre ++ nm_paragraph :: bpost ->
+    Forall (fun n => str_eqb n nm_paragraph = false) bpre -> 0 < c_maxNesting (p_block cfg) ->
+    p_core cfg = [n_normalize; n_block; n_inline; n_text_join] ->
+  forall ipre ipost, ic_rules (p_inline cfg) = ipre ++ n_escape :: ipost ->
+    Forall (fun n => n = n_text \/ n = n_linkify \/ n = n_newline) ipre -> In n_text ipre ->
+    ic_linkify (p_inline cfg) = false -> 0 < ic_maxNesting (p_inline cfg) ->
+  forall env,
+    render_md cfg reformat casefold linktext (src_of segs ++ [10]) env
+    = Ok ([60; 112; 62] ++ escape_html (text_of segs) ++ [60; 47; 112; 62; 10], env).
+Proof. exact render_para_esc. Qed.
+Print Assumptions C09_render_paragraph_escaped.
